@@ -1,6 +1,6 @@
 // Command schema regenerates lean/GS/Generated/Schema.lean (properties C11, C12) from
 //
-//	message/ipldbind/schema.ipldsch   the v2 wire schema: struct field order, wire renames, optional
+//	message/ipldbind/schema.ipldsch   the v2 wire schema: tuple field order, map-struct field sets, wire renames, optional
 //	                                  flags, representation kinds, enum members and their wire values,
 //	                                  the keyed-union discriminant
 //	graphsync.go                      the Go constants RequestType*/LinkAction* (enum member names the
@@ -304,6 +304,36 @@ func main() {
 		if len(d.fields) != len(fs) {
 			die("struct %s: expected %d fields, found %d", n, len(fs), len(d.fields))
 		}
+		if repr == "map" {
+			// Field order of a map-represented struct is not observable: the codec (dagcbor.Encode,
+			// MapSortMode_RFC7049) sorts the keys of EVERY map node it emits, typed or not, and the
+			// bindnode map-representation assembler accepts keys in any order. So the fields are
+			// matched BY NAME and emitted in the canonical order of `fs` (this translator's table):
+			// a reorder in schema.ipldsch regenerates an identical Lean file. Everything else stays
+			// strict: same set of names, no duplicates, same type / optional flag; renames are emitted.
+			seen := map[string]bool{}
+			for _, g := range d.fields {
+				if seen[g.name] {
+					die("struct %s: duplicate field %s", n, g.name)
+				}
+				seen[g.name] = true
+			}
+			canon := make([]field, 0, len(fs))
+			for _, f := range fs {
+				found := false
+				for _, g := range d.fields {
+					if g.name == f.name {
+						canon = append(canon, g)
+						found = true
+					}
+				}
+				if !found {
+					die("struct %s: field %s not found (the wire model knows exactly the fields %v)", n, f.name, fs)
+				}
+			}
+			d.fields = canon
+		}
+		// tuple representation: position IS the wire format, so the comparison stays positional
 		for i, f := range fs {
 			g := d.fields[i]
 			if g.name != f.name || g.typ != f.typ || g.optional != f.optional {
@@ -381,7 +411,7 @@ func main() {
 	w("def rootMember : B := %s", leanBytes(root.members[0].name))
 	w("")
 	emitStruct := func(prefix string, d decl) {
-		w("-- struct %s (representation %s): wire key of each field, in schema order", d.name, d.repr)
+		w("-- struct %s (representation %s): wire key of each field, in canonical (translator table) order", d.name, d.repr)
 		var keys []string
 		for _, f := range d.fields {
 			w("/-- %s.%s %s(rename %q) -/", d.name, f.name, map[bool]string{true: "optional ", false: ""}[f.optional], f.rename)
